@@ -1600,3 +1600,224 @@ Proof. exists exLate. repeat split; try reflexivity. left; reflexivity. Qed.
 Theorem late_add_event_level ys a r : is_role r ->
   (In (mkPeer a r) (get_peers r (run (y_tev (yrun ys)))) <-> live a r (y_tev (yrun ys))).
 Proof. intros Hr. apply view_exact, Hr. Qed.
+
+(* ================= no loss: premise only up to the return of the call ================= *)
+(* effects of a call are never taken back by a longer history *)
+Lemma call_effects_prefix c l l3 x : In x (call_effects c l) -> In x (call_effects c (l ++ l3)).
+Proof. unfold call_effects. rewrite call_effects_from_app. intros H. apply in_or_app; left; exact H. Qed.
+
+(* NO LOSS with the premise only up to the return of the call: whatever happens after call c has
+   returned (l3, arbitrary -- including Disconnected of the peers concerned) does not matter *)
+Theorem no_loss_providers_until_return l1 c p lk ann l2 l3 a u :
+  find_call c (calls (srun l1)) = None ->
+  In (mkPeer a ROLE_PROVIDER) (get_peers ROLE_PROVIDER (base (srun l1))) ->
+  (forall e, In e l2 -> ~ sdrops e a ROLE_PROVIDER) ->
+  a <> p_addr p -> tbl_get lk (mkPeer a ROLE_PROVIDER) = Some u ->
+  call_completed (l1 ++ SAdd c p lk ann :: l2) c ->
+  exists recs, In (Announce p recs) (call_effects c ((l1 ++ SAdd c p lk ann :: l2) ++ l3)) /\ In (a, u) recs.
+Proof.
+  intros Hf Ha Hnd Hne Hlk Hd.
+  destruct (no_loss_providers l1 c p lk ann l2 a u Hf Ha Hnd Hne Hlk Hd) as [recs [H1 H2]].
+  exists recs. split; [apply call_effects_prefix, H1|exact H2].
+Qed.
+
+Theorem no_loss_bidders_until_return l1 c p lk ann l2 l3 ab u :
+  find_call c (calls (srun l1)) = None ->
+  In (mkPeer ab ROLE_BIDDER) (get_peers ROLE_BIDDER (base (srun l1))) ->
+  (forall e, In e l2 -> ~ sdrops e ab ROLE_BIDDER) ->
+  p_role p = ROLE_PROVIDER -> tbl_get lk p = Some u ->
+  call_completed (l1 ++ SAdd c p lk ann :: l2) c ->
+  In (Announce (mkPeer ab ROLE_BIDDER) [(p_addr p, u)]) (call_effects c ((l1 ++ SAdd c p lk ann :: l2) ++ l3)).
+Proof.
+  intros Hf Hb Hnd Hr Hlk Hd. apply call_effects_prefix.
+  exact (no_loss_bidders l1 c p lk ann l2 ab u Hf Hb Hnd Hr Hlk Hd).
+Qed.
+
+(* ================= the overlap checker on the step model ================= *)
+(* ---------- compile / until_park reach the state they report ---------- *)
+Lemma srun_from_cons s e l : srun_from s (e :: l) = srun_from (fst (sstep s e)) l.
+Proof. reflexivity. Qed.
+
+Lemma until_park_run cand : forall s, srun_from s (snd (until_park s cand)) = fst (until_park s cand).
+Proof.
+  induction cand as [|e r IH]; intros s; [reflexivity|]. cbn [until_park].
+  destruct (is_nil (announces (snd (sstep s e)))).
+  - specialize (IH (fst (sstep s e))). destruct (until_park (fst (sstep s e)) r) as [s' done]. cbn [fst snd] in *.
+    rewrite srun_from_cons. exact IH.
+  - reflexivity.
+Qed.
+Lemma act_steps_run s a : srun_from s (snd (act_steps s a)) = fst (act_steps s a).
+Proof. destruct a; cbn [act_steps]; try apply until_park_run. reflexivity. Qed.
+
+Fixpoint acts_state (s : sstate) (l : list action) : sstate :=
+  match l with [] => s | a :: r => acts_state (fst (act_steps s a)) r end.
+Lemma compile_run l : forall s, srun_from s (compile s l) = acts_state s l.
+Proof.
+  induction l as [|a l IH]; intros s; [reflexivity|]. cbn [compile acts_state].
+  rewrite srun_from_app, act_steps_run. apply IH.
+Qed.
+
+(* ---------- the abstract sets of [windows] do not depend on the windows ---------- *)
+Definition abs_act (A : abs) (a : action) : abs :=
+  match a with AStart _ p _ _ => abs_add p A | ARelease _ => A | AOther e => abs_step A e [] end.
+Lemma windows_abs l : forall A ws, snd (windows A ws l) = fold_left abs_act l A.
+Proof. induction l as [|a l IH]; intros A ws; [reflexivity|]. cbn [windows fold_left]. rewrite IH. reflexivity. Qed.
+
+(* ---------- schedules the driver generates ---------- *)
+Definition plain_other (a : action) : Prop :=
+  match a with AOther (AddPeers _) | AOther (Disconnected _) => True | AOther _ => False | _ => True end.
+
+Definition known (s : sstate) (c : N) : Prop := find_call c (calls s) <> None.
+
+(* a step that is not SAdd c does not make c known, and only SAdd / SOther change the base *)
+Lemma sstep_unknown s e c : find_call c (calls s) = None -> (forall p lk ann, e <> SAdd c p lk ann) ->
+  find_call c (calls (fst (sstep s e))) = None.
+Proof.
+  intros Hn Hne. destruct e as [d p lk ann|d|d|d|d|e]; cbn [sstep].
+  - destruct (find_call d (calls s)); cbn [fst calls]; [exact Hn|]. cbn [find_call].
+    destruct (N.eqb_spec d c) as [->|_]; [exfalso; eapply Hne; reflexivity|exact Hn].
+  - destruct (find_call d (calls s)) as [k|] eqn:Ed; [|exact Hn]. destruct (k_pc k =? 0); [|exact Hn]. cbn [fst calls].
+    destruct (N.eq_dec d c) as [->|Hd]; [congruence|]. rewrite find_set_other by congruence. exact Hn.
+  - destruct (find_call d (calls s)) as [k|] eqn:Ed; [|exact Hn]. destruct (k_pc k =? 1); [|exact Hn]. cbn [fst calls].
+    destruct (N.eq_dec d c) as [->|Hd]; [congruence|]. rewrite find_set_other by congruence. exact Hn.
+  - destruct (find_call d (calls s)) as [k|] eqn:Ed; [|exact Hn]. destruct (k_pc k =? 2); [|exact Hn].
+    destruct (p_role (k_peer k) =? ROLE_PROVIDER)%Z; [|exact Hn].
+    destruct (N.eq_dec d c) as [->|Hd]; [congruence|].
+    destruct (tbl_get (k_lk k) (k_peer k)); cbn [fst calls]; rewrite find_set_other by congruence; exact Hn.
+  - destruct (find_call d (calls s)) as [k|] eqn:Ed; [|exact Hn]. destruct (k_pc k =? 3); [|exact Hn].
+    destruct (k_fan k); [exact Hn|]. destruct (tbl_get (k_lk k) (k_peer k)); [|exact Hn]. cbn [fst calls].
+    destruct (N.eq_dec d c) as [->|Hd]; [congruence|]. rewrite find_set_other by congruence. exact Hn.
+  - exact Hn.
+Qed.
+
+Lemma sstep_base_call s e : (forall c p lk ann, e <> SAdd c p lk ann) -> (forall e0, e <> SOther e0) ->
+  base (fst (sstep s e)) = base s.
+Proof.
+  intros H1 H2. destruct e as [d p lk ann|d|d|d|d|e]; cbn [sstep].
+  - exfalso; eapply H1; reflexivity.
+  - destruct (find_call d (calls s)) as [k|]; [|reflexivity]. destruct (k_pc k =? 0); reflexivity.
+  - destruct (find_call d (calls s)) as [k|]; [|reflexivity]. destruct (k_pc k =? 1); reflexivity.
+  - destruct (find_call d (calls s)) as [k|]; [|reflexivity]. destruct (k_pc k =? 2); [|reflexivity].
+    destruct (p_role (k_peer k) =? ROLE_PROVIDER)%Z; [|reflexivity]. destruct (tbl_get (k_lk k) (k_peer k)); reflexivity.
+  - destruct (find_call d (calls s)) as [k|]; [|reflexivity]. destruct (k_pc k =? 3); [|reflexivity].
+    destruct (k_fan k); [reflexivity|]. destruct (tbl_get (k_lk k) (k_peer k)); reflexivity.
+  - exfalso; eapply H2; reflexivity.
+Qed.
+
+Definition call_step_only (e : sevent) : Prop :=
+  (forall c p lk ann, e <> SAdd c p lk ann) /\ (forall e0, e <> SOther e0).
+
+Lemma until_park_base cand : Forall call_step_only cand -> forall s,
+  base (fst (until_park s cand)) = base s
+  /\ forall c, find_call c (calls s) = None -> find_call c (calls (fst (until_park s cand))) = None.
+Proof.
+  induction 1 as [|e r [He1 He2] Hr IH]; intros s; [split; auto|]. cbn [until_park].
+  assert (Hb : base (fst (sstep s e)) = base s) by (apply sstep_base_call; assumption).
+  assert (Hu : forall c, find_call c (calls s) = None -> find_call c (calls (fst (sstep s e))) = None)
+    by (intros c Hc; apply sstep_unknown; [exact Hc|intros; apply He1]).
+  destruct (is_nil (announces (snd (sstep s e)))).
+  - destruct (IH (fst (sstep s e))) as [I1 I2]. destruct (until_park (fst (sstep s e)) r) as [s' done]. cbn [fst] in *.
+    split; [congruence|]. intros c Hc. apply I2, Hu, Hc.
+  - cbn [fst]. split; [exact Hb|exact Hu].
+Qed.
+
+Lemma until_park_quiet s e r : announces (snd (sstep s e)) = [] ->
+  fst (until_park s (e :: r)) = fst (until_park (fst (sstep s e)) r).
+Proof.
+  intros H. cbn [until_park]. rewrite H. cbn [is_nil].
+  destruct (until_park (fst (sstep s e)) r); reflexivity.
+Qed.
+
+Lemma call_cands c : Forall call_step_only [SReadProviders c; SAnnounce c; SReadBidders c; SFanout c].
+Proof. repeat constructor; intros; discriminate. Qed.
+Lemma release_cands c : Forall call_step_only [SReadBidders c; SFanout c].
+Proof. repeat constructor; intros; discriminate. Qed.
+
+(* one action: the base state moves as the abstract sets do *)
+Lemma act_R s A a : wf (base s) -> R (base s) A -> plain_other a ->
+  (forall c p lk ann, a = AStart c p lk ann -> find_call c (calls s) = None) ->
+  wf (base (fst (act_steps s a))) /\ R (base (fst (act_steps s a))) (abs_act A a)
+  /\ forall c, find_call c (calls s) = None -> ~ (exists p lk ann, a = AStart c p lk ann) ->
+               find_call c (calls (fst (act_steps s a))) = None.
+Proof.
+  intros Hwf HR Hp Hfresh. destruct a as [c p lk ann|c|e]; cbn [act_steps abs_act].
+  - specialize (Hfresh c p lk ann eq_refl).
+    set (s1 := mkS (add p (base s)) ((c, mkCall p lk ann 0 [] []) :: calls s)).
+    assert (E1 : sstep s (SAdd c p lk ann) = (s1, [])) by (cbn [sstep]; rewrite Hfresh; reflexivity).
+    rewrite until_park_quiet by (rewrite E1; reflexivity). rewrite E1. cbn [fst].
+    destruct (until_park_base _ (call_cands c) s1) as [U1 U2].
+    rewrite U1. unfold s1; cbn [base]. split; [apply wf_add, Hwf|]. split; [apply R_add, HR|].
+    intros d Hd Hns. apply U2. unfold s1; cbn [calls find_call].
+    destruct (N.eqb_spec c d) as [->|_]; [exfalso; apply Hns; eauto|exact Hd].
+  - destruct (until_park_base _ (release_cands c) s) as [U1 U2]. rewrite U1. split; [exact Hwf|]. split; [exact HR|].
+    intros d Hd _. apply U2, Hd.
+  - cbn [fst sstep base calls]. split; [apply wf_step, Hwf|]. split.
+    + destruct e as [p lk ann|ps|p|from ok entries|u r]; cbn in Hp; try contradiction.
+      * exact (R_step (base s) A (AddPeers ps) HR).
+      * exact (R_step (base s) A (Disconnected p) HR).
+    + intros d Hd _. exact Hd.
+Qed.
+
+(* the final views of the step model pass the view clause of the overlap checker, for every
+   schedule with distinct call ids whose atomic events are AddPeers / Disconnected *)
+Theorem overlap_view_accepts_model pr acts :
+  NoDup (started_calls acts) -> Forall plain_other acts ->
+  view_ok (snd (windows abs_init [] acts)) pr (observe pr (base (srun (compile sinit acts))) []) = true.
+Proof.
+  intros Hnd Hpl. rewrite windows_abs. unfold srun. rewrite compile_run.
+  assert (G : forall l s A, wf (base s) -> R (base s) A -> NoDup (started_calls l) -> Forall plain_other l ->
+                (forall c, In c (started_calls l) -> find_call c (calls s) = None) ->
+                wf (base (acts_state s l)) /\ R (base (acts_state s l)) (fold_left abs_act l A)).
+  { induction l as [|a l IH]; intros s A Hwf HR Hn Hp Hf; [split; assumption|].
+    cbn [acts_state fold_left]. inversion Hp as [|? ? Hpa Hpl']; subst.
+    assert (Hfa : forall c p lk ann, a = AStart c p lk ann -> find_call c (calls s) = None).
+    { intros c p lk ann ->. apply Hf. cbn. left; reflexivity. }
+    destruct (act_R s A a Hwf HR Hpa Hfa) as [W [Rr U]].
+    apply IH; auto.
+    - destruct a; cbn [started_calls flat_map app] in Hn |- *; auto. inversion Hn; assumption.
+    - intros c Hc. apply U.
+      + apply Hf. destruct a; cbn [started_calls flat_map app]; auto. right; exact Hc.
+      + intros [p [lk [ann ->]]]. cbn [started_calls flat_map app] in Hn. inversion Hn; subst. contradiction. }
+  destruct (G acts sinit abs_init wf_init) as [W Rr]; auto; [repeat split|].
+  apply view_ok_model; assumption.
+Qed.
+
+(* the schedules of the driver's directed overlap class (c15OverlapDirected): provider Q is known;
+   k bidders connect and park with their own message (Q's record); provider P connects and is
+   released through its message and its whole fan-out; then everybody is released to the end *)
+Definition exQ := mkPeer 2 ROLE_PROVIDER.
+Definition exB3 := mkPeer 5 ROLE_BIDDER.
+Definition exPool : list peer := [exP1; exQ; exB1; exB2; exB3].
+Definition exLkAll : list (peer * bytes) := map (fun q => (q, be 2 (p_addr q))) exPool.
+Definition exBidders : list peer := [exB1; exB2; exB3].
+
+Definition directed_schedule (k : nat) : list action :=
+  let bs := firstn k exBidders in
+  let pc := N.of_nat (S (length bs)) in
+  AStart 0 exQ exLkAll []
+  :: map (fun ib => AStart (N.of_nat (S (fst ib))) (snd ib) exLkAll []) (combine (seq 0 (length bs)) bs)
+  ++ [AStart pc exP1 exLkAll []]
+  ++ repeat (ARelease pc) (S (length bs))
+  ++ concat (repeat (map (fun c => ARelease (N.of_nat c)) (seq 0 (S (S (length bs))))) 3).
+
+(* the step model's own observation of a schedule *)
+Definition model_overlap_case (i : N) (roles : list Z) (pr : list addr) (acts : list action) : case :=
+  let steps := compile sinit acts in
+  mkCase i 2 roles pr [] [observe pr (base (srun steps)) []] acts (map (model_call steps) (started_calls acts)).
+
+Lemma overlap_checker_accepts_directed k : (1 <= k <= 3)%nat ->
+  case_violations (model_overlap_case 0 [] [1; 2; 3; 4; 5; 9] (directed_schedule k)) = []
+  /\ existsb (fun x => negb (is_nil (snd x))) (c_calls (model_overlap_case 0 [] [] (directed_schedule k))) = true.
+Proof.
+  intros Hk. assert (E : (k = 1 \/ k = 2 \/ k = 3)%nat) by lia.
+  destruct E as [E|[E|E]]; subst k; split; vm_compute; reflexivity.
+Qed.
+
+(* and the checker is not silent on that family for trivial reasons: dropping P's fan-out to the
+   first parked bidder from the model's observation is flagged *)
+Example overlap_checker_rejects_directed :
+  let c := model_overlap_case 0 [] [] (directed_schedule 2) in
+  case_violations (mkCase 0 2 [] [] [] (obs c) (c_acts c)
+     (map (fun x => if fst (fst x) =? 3 then (fst x, firstn 2 (snd x)) else x) (c_calls c)))
+  = ["announce:missing"]%string.
+Proof. vm_compute. reflexivity. Qed.
